@@ -877,17 +877,6 @@ fn tree_mutate(rng: &mut Rng, t: &mut Tree, env: &Env, log: &mut CaseLog, parent
     }
 }
 
-/// class predicate `layer-dir-dotdot`, computed from the generated tree alone: some entry of
-/// layercontents.plist names a directory whose path has no final file-name component
-fn has_dotdot_layer_dir(t: &Tree) -> bool {
-    let Some(Node::File(b)) = t.get(&b"layercontents.plist".to_vec()) else { return false };
-    let Ok(v) = plist::Value::from_reader_xml(&b[..]) else { return false };
-    let Some(arr) = v.as_array() else { return false };
-    arr.iter().any(|e| {
-        e.as_array().and_then(|p| p.get(1)).and_then(|d| d.as_string()).map(|d| Path::new("base").join(d).file_name().is_none()).unwrap_or(false)
-    })
-}
-
 fn tree_hash(t: &Tree) -> u64 {
     let mut h = 0u64;
     for (k, n) in t {
@@ -915,9 +904,6 @@ fn case_ufo(env: &mut Env, idx: u64, rng: &mut Rng, log: &mut CaseLog, keep: boo
         }
     }
     log.hash = tree_hash(&t) ^ tree_hash(&parent_extra).rotate_left(1);
-    if has_dotdot_layer_dir(&t) {
-        log.tag("layer-dir-dotdot");
-    }
     if t.values().any(|n| matches!(n, Node::File(b) if max_depth(b) > DEPTH_CLASS)) {
         log.tag("deep-nesting");
     }
@@ -967,9 +953,6 @@ pub fn file_case(path: &Path, work: &Path, rng: &mut Rng, log: &mut CaseLog) {
         // copy, so that nothing is ever written next to the committed corpus
         let mut t = Tree::new();
         read_tree(path, Path::new(""), &mut t);
-        if has_dotdot_layer_dir(&t) {
-            log.tag("layer-dir-dotdot");
-        }
         let deep = work.join("l1").join("l2").join("l3");
         let ufo = deep.join("font.ufo");
         write_tree(&ufo, &t);
@@ -1003,10 +986,13 @@ pub fn file_case(path: &Path, work: &Path, rng: &mut Rng, log: &mut CaseLog) {
 }
 
 pub fn witness_case(id: &str, work: &Path, log: &mut CaseLog) {
-    log.tag(id);
+    if id != "image-non-utf8" {
+        log.tag(id);
+    }
     match id {
         "image-non-utf8" => {
-            log.desc = "Image::new(PathBuf from bytes b\"im\\xff.png\", None, identity) is accepted; glyph.image = Some(..); glyph.encode_xml()".into();
+            // regression input (repaired by 2bd9911): the constructor must return an error value
+            log.desc = "Image::new(PathBuf from bytes b\"im\\xff.png\", None, identity); if accepted: glyph.image = Some(..); glyph.encode_xml()".into();
             let mut g = Glyph::new("a");
             if let Some(Ok(im)) = log.guard("Image::new", || Image::new(PathBuf::from(os(b"im\xff.png")), None, AffineTransform::default()), |r| r.is_ok()) {
                 g.image = Some(im);
@@ -1659,10 +1645,7 @@ pub mod api {
         if rng.chance(1, 6) {
             let path: PathBuf = match rng.below(6) {
                 0 => {
-                    // class image-non-utf8: a file name that is not valid UTF-8
-                    if !tags.iter().any(|t| t == "image-non-utf8") {
-                        tags.push("image-non-utf8".into());
-                    }
+                    // a file name that is not valid UTF-8 (rejected by Image::new since 2bd9911)
                     desc.push_str(" <image with non-UTF-8 file name>");
                     PathBuf::from(os(b"im\xff\xfeg.png"))
                 }
@@ -1672,20 +1655,10 @@ pub mod api {
                 4 => PathBuf::from("/abs.png"),
                 _ => PathBuf::from("image.png"),
             };
-            match Image::new(path, color(rng), transform(rng)) {
-                Ok(im) => g.image = Some(im),
-                Err(_) => {
-                    // rejected by the constructor: the class does not apply
-                    if let Some(p) = tags.iter().position(|t| t == "image-non-utf8") {
-                        if !desc.contains("ACCEPTED") {
-                            tags.remove(p);
-                        }
-                    }
-                }
+            if let Ok(im) = Image::new(path, color(rng), transform(rng)) {
+                g.image = Some(im);
             }
-            if g.image.as_ref().map(|i| i.file_name().to_str().is_none()).unwrap_or(false) {
-                desc.push_str(" ACCEPTED");
-            }
+            let _ = &tags;
         }
         Some(g)
     }
